@@ -265,6 +265,21 @@ def run(case):
             y = one_hot_encoding(a, sup, w, labels=None if case["labels"] is None else list(case["labels"]))
         except ValueError:
             return {"obs": None, "decoded": []}
+        # labels are told apart as labels, not by how they print: the first two labels renamed to 77 and '77' give the
+        # same matrix column for column, and a label list holding only the spelling of a numeric label is refused
+        import numpy as np
+        labs_ = a.labels()
+        if len(labs_) >= 2 and 77 not in y.labels and "77" not in y.labels:
+            ren = {labs_[0]: 77, labs_[1]: "77"}
+            y2 = one_hot_encoding(a.rename_labels(mapping=ren), sup, w, labels=[ren.get(l, l) for l in y.labels])
+            assert y2.data.shape == y.data.shape and bool((y2.data == y.data).all()), \
+                "one_hot_encoding changes when two labels are renamed to 77 and '77'"
+            if any(isinstance(l, int) for l in labs_):
+                try:
+                    one_hot_encoding(a, sup, w, labels=[str(l) if isinstance(l, int) else l for l in labs_] + ["zz_other"])
+                    raise AssertionError("a label list without the numeric labels (only their spelling) was accepted")
+                except ValueError:
+                    pass
         dec = one_hot_decoding(y.data, y if case["via_feature"] else y.sliding_window, labels=y.labels)
         per = {}
         for s, k, l in dec.itertracks(yield_label=True):
